@@ -3,6 +3,16 @@
 import json, sys
 ALL = [f"C{i:02d}" for i in range(1, 21)]
 CLAIMED = {
+ "C07": dict(
+   technique="metamorphic testing over generated core programs: naming strategies (unique / maximally shadowing / reused per scope / rotated) must not change verdict or behaviour versus the reference machine; capture probes",
+   text="Exploration. Generated core programs (all binders: let, do, fn, match/comatch arms, fix, type binders, declarations) are printed under four binder-naming strategies that the reference semantics (own CK machine with structural environments) cannot distinguish; each print must be accepted and run to the reference (stdout, exit). Hand-written capture probes per binder form pin the expected answer for shadowing in bindee/body positions.",
+   note="trusted base: the naming module and reference machine in /verif/harness/src/core; names drawn only from non-reserved identifiers",
+   ref="§3 C07"),
+ "C09": dict(
+   technique="exhaustive small-scope enumeration plus random generation of file graphs against a reachability/cycle oracle; differential multi-file vs inlined programs from the core generator; generativity probes",
+   text="Exploration. (a) All 2^22 edge-set/companion/root/spelling codes on {a.zy,a.zyi,b.zy,b.zyi} in thorough (20k biased samples in quick) and random graphs of 2-12 files with duplicates, missing files, six path spellings incl. directory and file symlinks: graph() reports Cycle iff a cycle over import+signature edges is reachable, steps are real edges that chain and close; otherwise sources = reachable canonical files once, imports = occurrences, providers before consumers. (b) Generated programs with closed literal sub-values moved into provider files (imported once or several times, both import forms, three spellings) accept and behave exactly as the single-file program; exact companions change nothing, a wrong companion is rejected. (c) Generativity probes: def imported twice distinct, let-bound import shared, transparent definition equal.",
+   note="trusted base: props/c09.rs graph oracle (DFS + reachability, 40 lines); providers restricted to closed literals because an imported source starts from an empty environment",
+   ref="§3 C09"),
  "C15": dict(
    technique="stateful model-based testing: generated edit/query histories (proptest vector of operations, shrunk as one value) against a model of effective contents and a fresh-session oracle",
    text="Exploration. Histories of up to 40 overlay/disk edits and queries (graph, analyze, reports, coverage, executable run, checked_program/materialize_arena, LRU eviction, two more roots) over seven interdependent files with content variants (values of different types, syntax/type errors, non-exhaustive match, imports added/removed/cyclic, right/wrong/invalid companion, missing import, absent files); after every query a fresh session over a fresh directory with the model's effective contents answers the same query and the normalised answers must be equal; edit operations must succeed.",
